@@ -45,7 +45,11 @@ func genC13(r *Rand, tier string, ord int) *Trial {
 		c.Opts.HardGaps = r.P(0.3)
 	case "variants-gb", "variants-gff":
 		w := r.Range(6, 30)
-		ref, _, q := genUpdownAln(r, w, 0, r.Range(1, 9))
+		nseq := r.Range(1, 9)
+		if r.P(0.05) {
+			nseq = r.Range(49, 70) // right at the 50+threads channel capacities
+		}
+		ref, _, q := genUpdownAln(r, w, 0, nseq)
 		an := genAnno(r, ref, true, 0.2)
 		all := Aln{Names: append([]string{"ref"}, q.Names...), Seqs: append([]string{ref}, q.Seqs...)}
 		if r.P(0.3) { // gaps: deletions in queries
